@@ -543,6 +543,7 @@ func report(p Property, tier string, seed int64, cases []Case, results []Result,
 	}
 	var viols []viol
 	var samples []any
+	inconclusiveWhy := map[string]int{}
 	sort.Slice(results, func(i, j int) bool { return results[i].ID < results[j].ID })
 	for _, r := range results {
 		events += r.Events
@@ -567,6 +568,7 @@ func report(p Property, tier string, seed int64, cases []Case, results []Result,
 		switch r.Verdict {
 		case Inconclusive:
 			inconclusive++
+			inconclusiveWhy[r.Key]++
 			fmt.Printf("INCONCLUSIVE property=%s case=%s %s: %s\n", p.ID, r.ID, r.Key, firstLine(r.Msg))
 		case Violated:
 			viols = append(viols, viol{r, r.Key, r.Msg, r.Witness})
@@ -624,6 +626,7 @@ func report(p Property, tier string, seed int64, cases []Case, results []Result,
 		"events_observed":      events,
 		"distinct_signatures":  len(sigs),
 		"inconclusive":         inconclusive,
+		"inconclusive_reasons": inconclusiveWhy,
 		"cases_planned":        len(cases),
 		"cases_without_result": missing,
 		"known_findings_hit":   knownHit,
